@@ -108,7 +108,7 @@ func c01PlanFor(tier string, seed uint64) c01Plan {
 	if tier == "thorough" {
 		p.scouts = 256
 	}
-	p.gens = len(c01GenWL) + len(c01GenChar)
+	p.gens = len(c01GenWL) + len(c01GenChar) + 1
 	return p
 }
 
@@ -236,6 +236,10 @@ func c01Case(c *Ctx) {
 	default:
 		k := i - len(p.large) - len(p.small)*c01Shards - p.scouts
 		c.Count("generator_level_trees", 1)
+		if k == len(c01GenWL)+len(c01GenChar) {
+			coinStats(c, "generator-pick:", 40, 40000) // coin flips and word picks of a long password, counted
+			return
+		}
 		if k < len(c01GenWL) {
 			c04Tree(c, c01GenWL[k], explore.Limits{MaxLeaves: 30000, MaxDraws: 64}, "generator-pick:", false)
 		} else {
